@@ -1,7 +1,7 @@
 #!/bin/bash
 # usage: tools/seedimport.sh <Cxx> <k> "<seedeval summary line>"  -> copies a confirmed seeded mutation into /verif/seeded/<Cxx>-<k>/
 P="$1"; K="$2"; LINE="$3"
-SRC=/tmp/seed/out/$P/$K; DST=/verif/seeded/$P-$K
+SRC=${SEED_ROOT:-/tmp/seed}/out/$P/$K; DST=/verif/seeded/$P-${SEED_TAG:-}$K
 mkdir -p "$DST" && cp "$SRC"/patch.diff "$SRC"/demo_cmd.txt "$SRC"/*_test.go "$DST"/ 2>/dev/null
 python3 - "$SRC/meta.json" "$DST/meta.json" "$LINE" "$(git -C /repo rev-parse --short HEAD)" <<'PY'
 import json,sys
